@@ -123,3 +123,19 @@ Example chain6_now :
   option_map (fun st => (s_calls st, length (s_matched st))) (xscan UpdAll [7] chain6) = Some (16%nat, 6%nat)
   /\ option_map (fun st => length (s_matched st)) (xscan_old 10 UpdAll [7] chain6) = Some 6%nat.
 Proof. split; vm_compute; reflexivity. Qed.
+
+(* the hypothesis of scan_cost (pairwise distinct ids) is necessary: the index is keyed by id,
+   so two copies of a parent each re-check the same dependants (such a block is invalid) *)
+Definition dup_parent : tx N N := Build_tx 100 [xout 7 ClsPubKeyHash; xout 7 ClsPubKeyHash] [].
+Definition dup_child : tx N N := Build_tx 101 [xout 8 ClsPubKeyHash] [xin 100 0; xin 100 1].
+
+Theorem scan_cost_needs_distinct_ids :
+  exists (txs : list (tx N N)) (f0 : list N) (st : sstate (list N)),
+    xscan UpdAll f0 txs = Some st /\ (s_calls st > length txs + total_inputs txs)%nat.
+Proof.
+  exists [dup_child; dup_parent; dup_parent], [7].
+  destruct (xscan UpdAll [7] [dup_child; dup_parent; dup_parent]) as [st|] eqn:E; [|vm_compute in E; discriminate].
+  exists st. split; [reflexivity|].
+  assert (H : option_map (fun s => s_calls s) (xscan UpdAll [7] [dup_child; dup_parent; dup_parent]) = Some 7%nat) by (vm_compute; reflexivity).
+  rewrite E in H. cbn in H. inversion H as [H1]. rewrite H1. vm_compute. lia.
+Qed.
